@@ -970,6 +970,10 @@ Proof.
   destruct (Nat.eqb_spec i j) as [->|N]; [apply Z.eqb_refl|]. apply Z.eqb_neq. lia.
 Qed.
 
+Lemma mem_nat_enc' i g :
+  existsb (pv_eqb (PV (VInt (Z.of_nat i)))) (map (fun j => PV (VInt (Z.of_nat j))) g) = Compile.mem_nat i g.
+Proof. apply mem_nat_enc. Qed.
+
 End Pivot.
 
 Section PivotMain.
@@ -1065,7 +1069,7 @@ Proof.
   - destruct (Z.eqb_spec (Z.of_nat i1) (Z.of_nat i2)); [lia|]. run. rewrite Hg.
     destruct gi as [g|]; cbn [enc_gi popt]; run.
     + rewrite Hi. run. rewrite (prim_getitem tbl kids mro msg), X1.
-      run. rewrite Hg. run. rewrite mem_nat_enc.
+      run. rewrite Hg. cbn [enc_gi popt]. run. unfold PInt. rewrite mem_nat_enc'.
       destruct (Compile.mem_nat i2 g); run.
       * rewrite Hi. reflexivity.
       * rewrite (prim_raise' tbl kids mro msg). reflexivity.
